@@ -340,7 +340,7 @@ Definition pidx_on_remove (np : pstore) (px : list (Z * vindex)) (id key : Z) : 
   | None => px
   end.
 
-(** remove_node_from_property_indexes (fix 115f14a): update_property_index_on_remove for every
+(** remove_node_from_property_indexes (fix ebcbf15): update_property_index_on_remove for every
     indexed key (the keys of a hash map: each index is visited once) *)
 Definition pidx_remove_node (np : pstore) (px : list (Z * vindex)) (id : Z) : list (Z * vindex) :=
   map (fun kx => (fst kx, match ps_get np id (fst kx) with
@@ -500,7 +500,7 @@ Definition do_create_node (s : state) (ls : list Z) : state * ret :=
   let s2 := with_nodes (zset (nodes s1) id {| n_created := epoch s; n_deleted := None |}) s1 in
   (with_next_node (id + 1) s2, RId id).
 
-(** delete_node_at_epoch (non-tiered), incl. fix 115f14a *)
+(** delete_node_at_epoch (non-tiered), incl. fix ebcbf15 *)
 Definition do_delete_node (s0 : state) (id : Z) : state * ret :=
   let s := mark_stats_dirty s0 in
   match zget (nodes s) id with
@@ -519,7 +519,7 @@ Definition do_delete_node (s0 : state) (id : Z) : state * ret :=
   | None => (s, RBool false)
   end.
 
-(** the pre-115f14a behaviour: property indexes untouched *)
+(** the pre-ebcbf15 behaviour: property indexes untouched *)
 Definition do_delete_node_pre (s0 : state) (id : Z) : state * ret :=
   let s := mark_stats_dirty s0 in
   match zget (nodes s) id with
